@@ -6,9 +6,22 @@
    Proved: InvB is preserved by EVERY checked operation - typed set, bit set, bit clear, block write (across area borders) and sanitise, accepted
    or refused - and hence by every history of them; under it every value a get delivers satisfies its register's constraint.
    Outside the invariant by construction: registers with the always-failing constraint (their default only validates during initialisation). *)
-From Ufw Require Import Base.Bits Model.RegTable Proof.RegLemmas Proof.RegInitLemmas Proof.RegInvariant Proof.RegMemory Proof.RegBlockInv.
+From Ufw Require Import Base.Bits Model.RegTable Proof.RegLemmas Proof.RegInitLemmas Proof.RegInvariant Proof.RegMemory Proof.RegBlockInv Proof.RegInitInv.
 From Coq Require Import Bool Lia.
 Local Open Scope N_scope.
+
+(* the invariant is established by a successful initialisation of a plain table (memory-backed, default-loading areas; no always-failing constraint) *)
+Theorem C05_invariant_established_by_init :
+  forall t t' : table,
+         plain_table t ->
+         reg_init t = (ISuccess, 0, t') ->
+         InvB t' /\
+         t_entries t' = t_entries t /\
+         (forall (idx : N) (e : entry),
+          entry_at t' idx = Some e ->
+          reg_get t' idx = (ASuccess, 0, Some {| v_type := e_type e; v_bits := e_default e |})).
+Proof. exact (@init_establishes_invariant). Qed.
+Print Assumptions C05_invariant_established_by_init.
 
 (* the invariant survives every history of checked operations: typed set, bit set, bit clear, block write, sanitise *)
 Theorem C05_history_invariant_all :
